@@ -158,6 +158,14 @@ func (r *rig) judge() *gx.Outcome {
 				out.Stat("size:zone-not-judged:accepted")
 			}
 		}
+		// no broker fault anywhere in these scenarios: the only legitimate failures are the size rejection above and a message
+		// that cannot travel in any request (judged with a margin: less than half of MaxRequestSize always can). A message
+		// within every limit that ends as an error was not sent although a trigger fired (e.g. it was packed into a request
+		// that the client itself then refuses to encode)
+		if len(p.Faults) == 0 && len(evs) > 0 && !evs[0].ok && evs[0].err != tooLarge && kv+maxOverhead < p.MMB && 2*kv < int(r.maxMRS) {
+			out.Violate("C16", fmt.Sprintf("message-within-limits-failed-without-fault %s", p.Gen),
+				"%s (%d key+value bytes, within every limit) ended as an error although no broker answered with a fault: %s (%s)", id, kv, evs[0].err, cfg)
+		}
 	}
 
 	// clause 5: exactly one outcome for every accepted message; shutdown completes
